@@ -28,7 +28,8 @@ def check(ctx):
     # ---- R1
     corr = uniq_events(it, {'image_correction'}, inside)
     if not corr:
-        ctx.ob('R1', fi, 'periodic image correction', False,
+        from .common import absent
+        ctx.ob('R1', fi, 'periodic image correction', absent(it, FEP),
                'selected positions are not moved to the periodic image next to the symmetry-equivalent site: points selected '
                'across a cell face end up a lattice vector away from the centre')
     for e in corr:
@@ -94,7 +95,8 @@ def check(ctx):
     fwd = [e for e in sym if e['op'].opid == 'op']
     inv = [e for e in sym if e['op'].opid != 'op']
     if not inv:
-        ctx.ob('R2', fi, 'inverse operation', False, 'collected points are not mapped back with the inverse symmetry operation')
+        from .common import absent
+        ctx.ob('R2', fi, 'inverse operation', absent(it, FEP), 'collected points are not mapped back with the inverse symmetry operation')
     for e in inv:
         ok = e['op'].opid == ('inv', 'op')
         ctx.ob('R2', fi, e['node'], True if ok else None, 'inverse of the same operation maps the points back')
